@@ -173,10 +173,10 @@ pub proof fn lemma_parse_step(b: Seq<u8>)
 SKIP_INV = '''while cur + size_of::<LinuxDirent64>() <= buf.len()
             invariant_except_break !found,
             invariant
-                buf@ == old(buf)@, cur <= buf@.len(), buf@.len() <= 0x7fff_ffff_ffff_ffff, wf(buf@.skip(cur as int)),
-                es =~= pre + parse(buf@.skip(cur as int)),
-                forall|j: int| 0 <= j < pre.len() ==> (#[trigger] pre[j]).off != offset,
-                found ==> cur < buf@.len() && target_reclen as int == rec_len(buf@.skip(cur as int)) && rec_ent(buf@.skip(cur as int)).off == offset,
+                buf@ == old(buf)@, cur <= buf@.len(), buf@.len() <= 0x7fff_ffff_ffff_ffff, wf(buf@.skip(cur as int)), // [C16.skip_to_cookie.scan] the cursor stays on record boundaries
+                es =~= pre + parse(buf@.skip(cur as int)), // [C16.skip_to_cookie.scan]
+                forall|j: int| 0 <= j < pre.len() ==> (#[trigger] pre[j]).off != offset, // [C16.skip_to_cookie.scan] no record before the cursor carries the cookie
+                found ==> cur < buf@.len() && target_reclen as int == rec_len(buf@.skip(cur as int)) && rec_ent(buf@.skip(cur as int)).off == offset, // [C16.skip_to_cookie.found] the match is the record at the cursor, compared by d_off
             ensures !found ==> cur == buf@.len(),
             decreases buf@.len() - cur
         {'''
@@ -197,8 +197,8 @@ SKIP_POST = '''let ghost cur0 = cur;
 
 
 LAST_INV = '''while buf.len() >= size_of::<LinuxDirent64>()
-            invariant wf(buf@), parse(buf0) =~= pre + parse(buf@),
-                last == (if pre.len() == 0 { None::<u64> } else { Some(pre.last().off) }),
+            invariant wf(buf@), parse(buf0) =~= pre + parse(buf@), // [C16.last_cookie.last]
+                last == (if pre.len() == 0 { None::<u64> } else { Some(pre.last().off) }), // [C16.last_cookie.last]
             ensures buf@.len() < HDR,
             decreases buf@.len()
         {'''
@@ -496,6 +496,22 @@ pub open spec fn session(d: Seq<Dirent>, offs: Seq<u64>, gots: Seq<Seq<Dirent>>)
     && (forall|k: int| 0 <= k < offs.len() ==> exchange_ok(d, #[trigger] offs[k], gots[k]) && progress(d, offs[k], gots[k]))
     && (forall|k: int| 0 <= k < offs.len() - 1 ==> (#[trigger] gots[k]).len() > 0 && offs[k + 1] == gots[k].last().off)
 }
+// bridge: what [C16.do_readdir.resume] says about the callback log is an exchange in the sense above
+pub proof fn lemma_exchange_from_calls(inode: u64, off: u64, calls: Seq<CallRec>) -> (got: Seq<Dirent>)
+    requires known(dir_content(inode), off), resume_post(inode, off, calls)
+    ensures exchange_ok(dir_content(inode), off, got), got.len() == n_accepted(calls),
+            forall|j: int| 0 <= j < got.len() ==> accepted(#[trigger] calls[j]) && calls[j].ino == got[j].ino && calls[j].off == got[j].off
+                && calls[j].ty == got[j].ty as u32 && calls[j].name == got[j].name && fd_ino(calls[j].fd) == inode, // [C16.lemma.exchange] each delivered entry carries the ino, cookie, type and name of its directory entry
+{
+    let dd = dir_content(inode);
+    let (e, fd) = choose|e: int, fd: int| after(dd, off) <= e <= dd.len() && (e == after(dd, off) ==> e == dd.len()) && fd_ino(fd) == inode
+        && #[trigger] delivered_ok(dd.subrange(after(dd, off), e), calls, fd);
+    let batch = dd.subrange(after(dd, off), e);
+    lemma_delivered_prefix(batch, calls, fd);
+    let got = visible(batch).take(n_accepted(calls));
+    assert(got.is_prefix_of(visible(batch)));
+    got
+}
 pub proof fn lemma_c16_step(d: Seq<Dirent>, off: u64, got: Seq<Dirent>)
     requires dir_ok(d), exchange_ok(d, off, got), got.len() > 0
     ensures known(d, got.last().off), after(d, off) < after(d, got.last().off) <= d.len(),
@@ -550,7 +566,7 @@ GETDENTS_RX = r'libc::syscall\(\s*libc::SYS_getdents64,\s*dir\.as_raw_fd\(\),\s*
 DR_RESUB = [
     (GETDENTS_RX, 'sys::getdents64(dir.as_raw_fd(), &buf, size as libc::c_int, Tracked(ks))', SYSW),
     (r'libc::lseek64\(((?:[^()]|\([^()]*\))*)\)', r'sys::lseek64(\1, Tracked(ks))', SYSW),
-    (r'unsafe \{ buf\.set_len\(res as usize\) \};', 'sys::vec_set_len(&mut buf, res as usize, Tracked(ks));',
+    (r'unsafe \{ buf\.set_len\(([^;]*)\) \};', r'sys::vec_set_len(&mut buf, \1, Tracked(ks));',
      'every: unsafe Vec::set_len after getdents64 -> model sys::vec_set_len (the vector becomes the bytes the kernel wrote; the length must equal the count returned)'),
     (r'io::Error::last_os_error\(\)', 'sys::last_os_error(Tracked(ks))', 'every: errno of the last failing host call (ghost token appended)'),
     (r'\badd_entry\(', 'add_entry.call(', 'call of the `&mut dyn FnMut` callback -> method call on the generic AddEntry object (ghost log)'),
@@ -578,7 +594,7 @@ DR_ENTRY = 'let ghost ks0 = *ks; let ghost log0 = add_entry.log(); proof { asser
 DR_DATA = 'let ghost fd = data.hfd() as int; let ghost d = dir_of(fd); let ghost ks1 = *ks;'
 DR_HIT = '''let ghost ks2 = *ks;
             proof {
-                assert(cookie_hit ==> ks.pos[fd] == after(d, offset) && known(d, offset));
+                assert(cookie_hit ==> ks.pos[fd] == after(d, offset) && known(d, offset)); // [C16.do_readdir.cache_hit] on a hit the descriptor already stands right after the cookie
                 assert(cache_inv_except(*ks, fd)) by {
                     assert forall|h: u64| #[trigger] ks.cache.dom().contains(h) implies handle_fd(h) != fd && ks0.cache.dom().contains(h) && ks0.cache[h] == ks.cache[h] && ks.pos[handle_fd(h)] == ks0.pos[handle_fd(h)] by { }
                 }
@@ -586,9 +602,9 @@ DR_HIT = '''let ghost ks2 = *ks;
 SCAN_INV = '''let ghost ks3 = *ks;
                 loop
                     invariant_except_break
-                        buf@.len() == 0,
-                        !found ==> forall|j: int| 0 <= j < ks.pos[fd] ==> (#[trigger] d[j]).off != offset,
-                        found ==> known(d, offset) && ks.pos[fd] == after(d, offset),
+                        buf@.len() == 0, // [C16.do_readdir.scan] a batch without the cookie is discarded as a whole
+                        !found ==> forall|j: int| 0 <= j < ks.pos[fd] ==> (#[trigger] d[j]).off != offset, // [C16.do_readdir.scan]
+                        found ==> known(d, offset) && ks.pos[fd] == after(d, offset), // [C16.do_readdir.scan] after a match at the end of a batch the next batch starts right after the cookie
                     invariant
                         offset != 0, size != 0, d == dir_of(fd), dir_ok(d), cache_inv_except(*ks, fd), log0 == add_entry.log(), dir.sfd() as int == fd, pos_ok(*ks, fd), ks.cache == ks3.cache,
                         forall|f: int| f != fd ==> ks.pos[f] == ks3.pos[f],
@@ -628,27 +644,28 @@ DR_CACHED = '''proof {
                 }
                 assert(cache_inv(*ks));
             }'''
-REC_INV = '''let ghost batch = parse(buf@); let ghost mut i: int = 0; let ghost ks5 = *ks;
+REC_INV = '''let ghost batch = parse(buf@); let ghost ks5 = *ks;
         proof {
-            assert(buf@.subrange(0, buf@.len() as int) =~= buf@); assert(batch.skip(0) =~= batch);
+            assert(buf@.subrange(0, buf@.len() as int) =~= buf@); assert(batch.skip(0) =~= batch); assert(batch.take(0) =~= Seq::<Dirent>::empty());
             assert(new_calls(add_entry.log(), log0) =~= Seq::<CallRec>::empty());
             lemma_all_accepted_empty(batch, fd);
             assert(batch_pre(inode, offset, fd, ks5.pos[fd], batch));
         }
         let ghost mut stopped = false;
         while !rem.is_empty()
-            invariant_except_break !stopped,
+            invariant_except_break !stopped, // [C16.do_readdir.stop] the walk ends at the first entry that was not accepted
             invariant
-                !stopped ==> all_accepted(new_calls(add_entry.log(), log0), visible(batch.take(i)), fd), // [C16.do_readdir.loop] every visible record so far was offered once, in order, and accepted
+                !stopped ==> all_accepted(new_calls(add_entry.log(), log0), visible(batch.take(batch.len() - parse(rem@).len())), fd), // [C16.do_readdir.loop] every visible record so far was offered once, in order, and accepted
                 stopped ==> delivered_ok(batch, new_calls(add_entry.log(), log0), fd), // [C16.do_readdir.delivered]
-                wf(rem@), 0 <= i <= batch.len(), parse(rem@) =~= batch.skip(i), rem@.len() <= 0x7fff_ffff_ffff_ffff,
-                i == 0 ==> rem@.len() == orig_rem_len, i > 0 ==> rem@.len() < orig_rem_len,
+                wf(rem@), parse(rem@).len() <= batch.len(), parse(rem@) =~= batch.skip(batch.len() - parse(rem@).len()), rem@.len() <= 0x7fff_ffff_ffff_ffff, // [C16.do_readdir.walk] the records are visited one by one, each advance is exactly one record
+                parse(rem@).len() == batch.len() ==> rem@.len() == orig_rem_len, parse(rem@).len() < batch.len() ==> rem@.len() < orig_rem_len, // [C16.do_readdir.walk]
                 *ks == ks5, cache_inv(ks5), size != 0, data.hfd() as int == fd, extends(add_entry.log(), log0), log0 == old(add_entry).log(),
                 batch_pre(inode, offset, fd, ks5.pos[fd], batch),
                 !known(dir_content(inode), offset) && offset > 0x7fff_ffff_ffff_ffffu64 ==> batch.len() == 0,
             ensures !stopped ==> rem@.len() == 0,
             decreases rem@.len()
         {
+            let ghost i: int = batch.len() - parse(rem@).len();
             proof { assert(!stopped); lemma_parse_step(rem@); assert(batch[i] == batch.skip(i)[0]); assert(batch[i] == rec_ent(rem@)); if i == 0 { lemma_all_accepted_len0(new_calls(add_entry.log(), log0), batch, fd); } }
             let ghost log1 = add_entry.log();'''
 REC_FRONT = 'proof { assert(front@ =~= rem@.subrange(0, HDR as int)); }'
@@ -659,7 +676,7 @@ REC_NAME = '''proof {
 REC_MATCH = '''proof {
                 let calls1 = new_calls(log1, log0); let calls = new_calls(add_entry.log(), log0);
                 if hidden(batch[i]) {
-                    assert(add_entry.log() == log1);
+                    assert(add_entry.log() == log1); // [C16.do_readdir.hidden] exactly the records named . and .. are passed over without a call
                     lemma_step_hidden(batch, i, calls1, fd);
                 } else {
                     let c = add_entry.log().last();
@@ -670,11 +687,12 @@ REC_MATCH = '''proof {
                     else { stopped = true; lemma_step_stop(batch, i, calls1, c, fd); lemma_exit(inode, offset, fd, ks5.pos[fd], batch, calls); } // [C16.do_readdir.stop] nothing is offered after an entry that was not accepted
                 }
                 assert(rem@.skip(rec_len(rem@)).len() < rem@.len());
+                assert(batch.skip(i).skip(1) =~= batch.skip(i + 1));
+                assert(parse(rem@.skip(rec_len(rem@))).len() == batch.len() - (i + 1));
             }'''
-REC_ADV = 'proof { assert(batch.skip(i).skip(1) =~= batch.skip(i + 1)); i = i + 1; }'
 REC_END = '''proof {
             let calls = new_calls(add_entry.log(), log0);
-            if !stopped { assert(batch.skip(i).len() == 0); lemma_step_done(batch, calls, fd); }
+            if !stopped { assert(parse(rem@).len() == 0); lemma_step_done(batch, calls, fd); }
             lemma_exit(inode, offset, fd, ks5.pos[fd], batch, calls);
             if !known(dir_content(inode), offset) && offset > 0x7fff_ffff_ffff_ffffu64 { reveal(delivered_ok); assert(visible(batch) =~= Seq::<Dirent>::empty()); }
         }'''
@@ -720,15 +738,12 @@ def unit(root='/repo'):
                             ('loop {', 'replace', SCAN_INV),
                             ('if res == 0 {', 'after', SCAN_EOF),
                             ('if Self::skip_to_cookie(&mut buf, offset) {', 'before', SCAN_SKIP),
-                            ('if !buf.is_empty() {', 'after', SCAN_NONEMPTY),
                             ('self.cache_cookie(handle, &buf, Tracked(ks));', 'before', DR_BATCH),
                             ('self.cache_cookie(handle, &buf, Tracked(ks));', 'after', DR_CACHED),
                             ('while !rem.is_empty() {', 'replace', REC_INV),
                             ('let dirent64 = LinuxDirent64::from_slice(front)', 'before', REC_FRONT),
-                            ('let res = if name.starts_with(CURRENT_DIR_CSTR)', 'before', REC_NAME),
+                            ('let res = if ', 'before', REC_NAME),
                             ('match res {', 'before', REC_MATCH),
-                            ('Ok(_) => rem = &rem[dirent64.d_reclen as usize..],', 'replace',
-                             'Ok(_) => { rem = &rem[dirent64.d_reclen as usize..]; ' + REC_ADV + ' }'),
                             ('Ok(())\n    }', 'before', REC_END)]),
                 callees=('consume_cached_cookie', 'cache_cookie', 'get_dirdata')),
             Fn(PTS, IMPL, 'skip_to_cookie', props=['C16'], canary=True,
@@ -743,14 +758,15 @@ def unit(root='/repo'):
                         ('cur += reclen;', 'before',
                          'proof { let rest = buf@.skip(cur as int); assert(rest.skip(reclen as int) =~= buf@.skip(cur + reclen)); assert(es =~= pre.push(rec_ent(rest)) + parse(rest.skip(reclen as int))); pre = pre.push(rec_ent(rest)); }'),
                         ('if found {', 'before', SKIP_POST),
-                        ('vec_drain_to(buf, cur);', 'before', 'proof { let rest = buf@.skip(cur0 as int); assert(rest.skip(target_reclen as int) =~= buf@.skip(cur as int)); }')],
-               ensures=['wf(final(buf)@)', 'final(buf)@.len() <= old(buf)@.len()',
+                        ('vec_drain_to(buf, cur);', 'before', 'proof { let rest = buf@.skip(cur0 as int); assert(rest.skip(target_reclen as int) =~= buf@.skip(cur as int)); // [C16.skip_to_cookie.rest]\n }'),
+                        ('found\n    }', 'before', 'proof { if buf@.len() > 0 { lemma_parse_step(buf@); } }')],
+               ensures=['wf(final(buf)@)', 'final(buf)@.len() <= old(buf)@.len()', 'final(buf)@.len() > 0 ==> parse(final(buf)@).len() > 0',
                         'res == (find_off(parse(old(buf)@), offset) < parse(old(buf)@).len()) // [C16.skip_to_cookie.found]',
                         'res ==> parse(final(buf)@) =~= parse(old(buf)@).skip(find_off(parse(old(buf)@), offset) + 1) // [C16.skip_to_cookie.rest] exactly the records after the matched one remain',
                         '!res ==> final(buf)@ == old(buf)@ // [C16.skip_to_cookie.notfound]'],
                ret_name='res'),
             tok(Fn(PTS, IMPL, 'consume_cached_cookie', props=['C16'],
-                   splices=[('|cookie|', 'closure', '|cookie: u64| -> (q: bool) ensures q == (cookie == offset)')],
+                   splices=[('|cookie|', 'closure', '|cookie: u64| -> (q: bool) ensures q == (cookie == offset), // [C16.cached_cookie.exact]\n')],
                    ensures=['r ==> !self.no_opendir.cur() && old(ks).cache.dom().contains(handle) && old(ks).cache[handle] == offset // [C16.cached_cookie.exact] a hit only for exactly the cached cookie, never in no_opendir mode',
                             'final(ks).pos == old(ks).pos', 'final(ks).pending == old(ks).pending',
                             'final(ks).cache == (if self.no_opendir.cur() { old(ks).cache } else { old(ks).cache.remove(handle) }) // [C16.cached_cookie.consumed] a stale cookie is dropped'])),
